@@ -112,6 +112,15 @@ def hybrid_table(ctx: Ctx, rule: str, declare: bool = True):
             cases.add("rl")
             rest = frozenset((k, v) for k, v in lset if not k.startswith("STIFF["))
             sib = grl_rows.get(rest)
+            if sib is None and grl is None and table.get("generalized_rush_larsen", "") in errs:
+                # the sibling's path table could not be built (its emission is not understood): there is nothing to
+                # compare with; the stiff branch is judged against the vetted terms instead
+                want = S.GRL_GUARDED if l.get("NEED_GUARD") is True else (S.GRL_PLAIN if l.get("NEED_GUARD") is False else None)
+                if want is None or r.store is None:
+                    ctx.undecided(rule, key, f"{f.name} path [{r.raw_pred}]: the path table of generalized_rush_larsen is not built; the stiff branch is not compared", f.where(m.loop))
+                else:
+                    ctx.check(r.store[1] == want, rule, key, "stiff branch stores the vetted Rush-Larsen term (the sibling's table is not built)", f"{f.name} path [{r.raw_pred}] stores {te.show(r.store[1])}, not the Rush-Larsen term", f.where(r.store[2]))
+                continue
             if sib is None:
                 ctx.fail(rule, key, f"{f.name} path [{r.raw_pred}]: generalized_rush_larsen has no path with the same conditions {sorted(rest)}; the stiff branch is not a copy of it", f.where(r.store[2]) if r.store else f.where(m.loop))
                 continue
